@@ -58,6 +58,7 @@ type c03vp struct {
 	Votes    [][2]string    `json:"votes"` // node, fact name
 	Expels   []c03expel     `json:"expels"`
 	Majority string         `json:"majority"` // "X", "Y" or "-"
+	Stuck    bool           `json:"stuck"`
 	extra    map[string]int // not serialised
 }
 
@@ -76,7 +77,11 @@ func (v c03vp) line() string {
 		}
 		es = append(es, fmt.Sprintf("%d/%s", x.Node, strings.Join(sg, ".")))
 	}
-	return fmt.Sprintf("vp %d S:%s V:%s E:%s M:%s", v.T10, strings.Join(s, ","), strings.Join(vs, ","), strings.Join(es, ";"), v.Majority)
+	line := fmt.Sprintf("vp %d S:%s V:%s E:%s M:%s", v.T10, strings.Join(s, ","), strings.Join(vs, ","), strings.Join(es, ";"), v.Majority)
+	if v.Stuck {
+		line += " stuck"
+	}
+	return line
 }
 
 // build the real objects and ask the real validators
@@ -119,7 +124,17 @@ func (e *c03env) accepted(v c03vp, proposals map[string]util.Hash) (bool, string
 	}
 	th := base.Threshold(float64(v.T10) / 10)
 	var vp base.Voteproof
-	if len(expels) > 0 {
+	if v.Stuck {
+		w := isaac.NewINITStuckVoteproof(e.point)
+		w.SetSignFacts(sfs)
+		w.SetExpels(expels)
+		w.Finish() // no majority, threshold 100
+		if v.Majority != "-" { // a crafted one: majority put back after Finish
+			w.SetMajority(fact(v.Majority))
+		}
+		w.SetThreshold(th)
+		vp = w
+	} else if len(expels) > 0 {
 		w := isaac.NewINITExpelVoteproof(e.point)
 		if v.Majority != "-" {
 			w.SetMajority(fact(v.Majority))
@@ -217,6 +232,31 @@ func (c *Ctx) c03gen(n int, t10s []int, t10 int) c03vp {
 	if c.Chance(1, 40) {
 		v.Votes = append(v.Votes, [2]string{"8", lean})
 	}
+	if len(v.Expels) > 0 && c.Chance(1, 4) {
+		v.Stuck = true
+		if c.Chance(2, 3) { // a stuck voteproof holds a sign fact of every node that is not expelled
+			v.Votes = nil
+			cnt = map[string]int{}
+			for j := 1; j <= n; j++ {
+				if expelled[j] {
+					continue
+				}
+				f := lean
+				if c.Chance(1, 3) {
+					f = other
+				}
+				v.Votes = append(v.Votes, [2]string{fmt.Sprint(j), f})
+				cnt[f]++
+			}
+		}
+		if c.Chance(3, 4) {
+			v.T10 = 1000
+		}
+		if c.Chance(1, 2) {
+			v.Majority = "-"
+			return v
+		}
+	}
 	// declared majority: usually the leading fact, sometimes the other one or a draw
 	switch r := c.Intn(12); {
 	case r < 9:
@@ -278,6 +318,17 @@ func runC03(c *Ctx) error {
 	if oka && okb {
 		c03pairs(c, 4, 670, []c03vp{wa, wb})
 	}
+	// two crafted stuck voteproofs over the same sign facts with different majorities
+	sa := c03vp{T10: 1000, N: 4, Votes: [][2]string{{"1", "X"}, {"2", "Y"}, {"3", "Y"}}, Expels: []c03expel{{Node: 4, Signers: []int{1, 2, 3}}}, Majority: "X", Stuck: true}
+	sb := sa
+	sb.Majority = "Y"
+	oksa, _ := env.accepted(sa, proposals)
+	oksb, _ := env.accepted(sb, proposals)
+	c.Case(sa.line(), b01(oksa))
+	c.Case(sb.line(), b01(oksb))
+	if oksa && oksb {
+		c03pairs(c, 4, 1000, []c03vp{sa, sb})
+	}
 	return nil
 }
 
@@ -313,6 +364,9 @@ func c03pairs(c *Ctx, n, t10 int, accepted []c03vp) {
 				cls := "C03:agreement-broken"
 				if len(a.Expels) > f || len(b.Expels) > f {
 					cls = "C03:expel-count-exceeds-f"
+				}
+				if a.Stuck || b.Stuck {
+					cls = "C03:stuck-voteproof-with-majority"
 				}
 				c.Violation(cls, fmt.Sprintf("n=%d t=%.1f%% (required %d, f=%d): both accepted, majorities %s / %s, nodes signing both: %v — %s || %s", n, float64(t10)/10, q, f, a.Majority, b.Majority, eq, a.line(), b.line()),
 					map[string]interface{}{"a": a, "b": b})
